@@ -645,6 +645,55 @@ def refute_h2c(binp):
     return None
 
 
+# ---- products of pairings (C11): the joint loop, the helpers and the product of the single pairings through the real code ------------------------
+def refute_pairings(binp):
+    rnd = random.Random(29)
+    g1 = rand_point(F1, rnd); g2 = rand_point(F2, rnd)
+    # into the subgroups: cofactor multiples of random curve points (checked: [r] of each is the identity)
+    H1 = 0x396c8c005555e1568c00aaab0000aaab
+    P = ec_mul(F1, H1, g1)
+    # a G2 subgroup point: [k] of the crate's generator is not available here, so clear the cofactor with the curve order / r
+    H2 = 0x5d543a95414e7f1091d50792876a202cd91de4547085abaa68a205b2e5a7ddfa628f1cb4d9e82ef21537e293a6691ae1616ec6e786f0c70cf1c38e31c7238e5
+    Qg = ec_mul(F2, H2, g2)
+    if P is None or Qg is None or ec_mul(F1, R, P) is not None or ec_mul(F2, R, Qg) is not None:
+        raise RuntimeError('reference subgroup points could not be produced')
+    a, b, c = rnd.randrange(1, R), rnd.randrange(1, R), rnd.randrange(1, R)
+    P2, P3 = ec_mul(F1, a, P), ec_mul(F1, b, P)
+    Q2, Q3 = ec_mul(F2, c, Qg), ec_mul(F2, a, Qg)
+    one = [1] + [0] * 11
+    shapes = [('empty', [], True), ('single', [(P, Qg)], False), ('identity_g1', [(None, Qg)], True), ('identity_g2', [(P, None)], True),
+              ('two', [(P, Qg), (P2, Q2)], False), ('repeated_two', [(P, Qg), (P, Qg)], False), ('identity_first', [(None, Qg), (P2, Q2)], False), ('identity_middle', [(P, Qg), (P2, None), (P3, Q3)], False),
+              ('identity_last', [(P, Qg), (P2, Q2), (None, None)], False), ('repeated', [(P, Qg), (P, Qg), (P, Qg)], False),
+              ('cancel_neg', [(P, Qg), (ec_neg(F1, P), Qg)], True), ('cancel_neg_g2', [(P2, Q2), (P2, ec_neg(F2, Q2))], True),
+              ('cancel_scalars', [(ec_mul(F1, a, P), ec_mul(F2, b, Qg)), (ec_mul(F1, (R - a * b) % R, P), Qg)], True),
+              ('cancel_three', [(ec_mul(F1, a, P), Qg), (ec_mul(F1, b, P), Qg), (ec_mul(F1, (2 * R - a - b) % R, P), Qg)], True),
+              ('five', [(P, Qg), (P2, Q2), (P3, Q3), (P2, Qg), (P, Q3)], False)]
+    if not THOROUGH[0]:
+        shapes = [sh for sh in shapes if sh[0] not in ('repeated', 'cancel_neg_g2', 'five', 'identity_last')]
+    for name, pairs, is_one in shapes:
+        kv = dict(n=str(len(pairs)))
+        for i, (A, B) in enumerate(pairs):
+            kv.update(pt_args(F1, f'p{i}', jac(F1, A, None))); kv.update(pt_args(F2, f'q{i}', jac(F2, B, None)))
+        out, cmd = run_bin(binp, 'pairings', kv)
+        o = out.get('out', [])
+        if out.get('tag') == 'panic':
+            return dict(function=f"pairings:{name}", input=kv, actual='panic', expected='a value (no product of pairings aborts)', command=cmd[:3000])
+        if 'error' in out or len(o) != 7:
+            continue
+        joint, prod, multi, two, again, ml, mlprod = o
+        val = [int(x, 16) for x in joint.split(',')]
+        for what, x, y in (('final_exponentiation(miller_loop(list)) vs product of the single pairings', joint, prod), ('pairing_multi_product vs product of the single pairings', multi, prod),
+                           ('pairing_product vs product of the single pairings', two or prod, prod), ('second evaluation with the same prepared elements', again, joint),
+                           ('miller_loop(list) vs product of the single-pair miller_loop values', ml, mlprod)):
+            if x != y:
+                return dict(function=f"pairings:{name}", input=kv, actual=f"{what}: {x[:200]}", expected=y[:200], command=cmd[:3000])
+        if is_one and val != one:
+            return dict(function=f"pairings:{name}", input=kv, actual='product of pairings: ' + joint[:200], expected='1 (identities only / cancelling exponents)', command=cmd[:3000])
+        if not is_one and val == one:
+            return dict(function=f"pairings:{name}", input=kv, actual='product of pairings is 1', expected='a non-trivial value', command=cmd[:3000])
+    return None
+
+
 # ---- multi-scalar multiplication (C10) ----------------------------------------------------------------------------------------------
 def refute_msm(binp):
     rnd = random.Random(23)
@@ -846,6 +895,9 @@ STANDINS = {
     'hash_to_curve_api': (refute_h2c, "(cross-check: the glue is under contract in unit h2c) HashToCurve::hash_to_curve / encode_to_curve for G1 and G2 over XMD-SHA-256, XMD-SHA-512 and SHAKE128 against the composition "
                           "map2_to_curve(u[0], u[1]) with count = 2 / map_to_curve(u[0]) with count = 1 of the real hash_to_field and maps (each under contract elsewhere), empty / short / long messages and tags; "
                           "three RFC 9380 known answers (J.9.1, J.9.2, J.10.1 for the empty message)"),
+    'pairing_products': (refute_pairings, "(cross-check: miller_loop is under contract in unit miller) final_exponentiation(miller_loop(list)), pairing_product, pairing_multi_product and a second evaluation with the same prepared elements "
+                         "against the product (real Fq12 multiplication) of the single pairings; miller_loop(list) against the product of the single-pair loops; lists of 0..5 pairs with identities first / in the middle / last, repeated pairs, "
+                         "and cancelling combinations (e(P,Q)e(-P,Q), e(aP,bQ)e(-abP,Q), three-term sums) that must give exactly 1"),
     'encoders_api': (lambda binp: refute_encode(binp), "into_compressed / into_uncompressed through the public API on random points, both roots, small x, y in Fq / purely imaginary, the identity, with non-trivial Z"),
 }
 
